@@ -155,7 +155,7 @@ int cif_container_create_loop(cif_container_tp *c, const UChar *cat, UChar *name
     (void) record(S_CLOOP);
     l = (cif_loop_tp *) malloc(sizeof *l); V_MALLOC_OK(l); l->container = c; l->loop_num = 1; l->category = 0; l->names = 0; live_handles++; *loop = l; return CIF_OK; }
 void cif_loop_free(cif_loop_tp *l) { live_handles--; free(l); }
-static int packet_bad, packets_added;
+static int packet_bad, packets_added_in[NPOS];          /* packets stored so far, per loop (indexed by the position of its loop_ token) */
 int cif_loop_add_packet(cif_loop_tp *l, cif_packet_tp *p) {
     /* the packet handed to the store holds, per column, the value parsed for it (the parse_value stub yields n/a values) or
      * the unknown value where the document supplied none (documented recovery for a partial packet) */
@@ -164,11 +164,11 @@ int cif_loop_add_packet(cif_loop_tp *l, cif_packet_tp *p) {
     if (lk < 0 || p == NULL) { packet_bad = 1; return CIF_OK; }
     b = loop_body_start(lk); t = loop_term(b); nc = loop_ncols(lk);
     for (e = p->map.head; e != NULL && col < 4; e = (struct entry_s *) e->hh.next, col++) {
-        int have = (b + packets_added * nc + col) < t;
+        int have = (b + packets_added_in[lk] * nc + col) < t;
         if (e->as_value.kind != (have ? CIF_NA_KIND : CIF_UNK_KIND)) packet_bad = 1;
     }
     if (col != nc) packet_bad = 1;
-    packets_added++;
+    packets_added_in[lk]++;
     return CIF_OK;
 }
 int cif_container_prune(cif_container_tp *c) { return CIF_OK; }
